@@ -252,6 +252,43 @@ Proof.
     + rewrite (HN eq_refl) in Hc. contradiction.
 Qed.
 
+Lemma maxl_zero l : (forall x, In x l -> x = 0) -> maxl l = 0.
+Proof.
+  induction l as [|h l IH]; intros H; [reflexivity|].
+  unfold maxl in *. simpl. rewrite IH by (intros x Hx; apply H; right; exact Hx).
+  rewrite (H h (or_introl eq_refl)). reflexivity.
+Qed.
+
+Lemma reported_val : forall rs t n l,
+  RankOK rs t n -> (l < n)%nat ->
+  nth l (reported rs t) 0 = match fst (nthr rs l) with Some s => s | None => 0 end.
+Proof.
+  intros rs t n l [HL HR] Hl. unfold reported. rewrite HL.
+  rewrite nth_map_seq by exact Hl. unfold reported_at, nthr in *.
+  assert (E : nth_error rs l = Some (nth l rs r0)) by (apply nth_error_nth'; lia).
+  rewrite E. destruct (nth l rs r0) as [[s|] est] eqn:Er; cbn [fst]; [reflexivity|].
+  apply maxl_zero. intros x Hx. apply in_map_iff in Hx. destruct Hx as [f' [<- Hf']].
+  destruct (HR l f' Hl Hf') as [_ HN]. rewrite Er in HN. specialize (HN eq_refl).
+  unfold coords in HN. apply map_eq_nil in HN. rewrite HN. reflexivity.
+Qed.
+
+(* a joined fiber reports the range it was constructed with, else [0, its rank's shape) *)
+Lemma active_exact : forall rs t n l f,
+  RankOK rs t n -> (l < n)%nat -> In f (alevel l t) ->
+  get_active (fst (nthr rs l)) f = expect_active (nth l (reported rs t) 0) f.
+Proof.
+  intros rs t n l f HOK Hl Hf. rewrite (reported_val rs t n l HOK Hl).
+  destruct HOK as [HL HR]. destruct (HR l f Hl Hf) as [HS HN].
+  assert (Hnone : match fst (nthr rs l) with
+                  | Some s => if Z.eqb s 0 then (0, est1 (a_es f)) else (0, s)
+                  | None => (0, est1 (a_es f))
+                  end = (0, match fst (nthr rs l) with Some s => s | None => 0 end)).
+  { destruct (fst (nthr rs l)) as [s|].
+    - destruct (HS s eq_refl) as [Hs _]. destruct (Z.eqb s 0) eqn:E; [apply Z.eqb_eq in E; lia|reflexivity].
+    - specialize (HN eq_refl). unfold coords in HN. apply map_eq_nil in HN. rewrite HN. reflexivity. }
+  destruct f as [v|own [a|] es]; cbn [get_active expect_active a_es] in *; [exact Hnone|reflexivity|exact Hnone].
+Qed.
+
 (* ---- decoding the model's own observation *)
 Lemma unZs_Vl l : unZs (Vl VZ l) = Some l.
 Proof.
@@ -342,6 +379,7 @@ Proof.
     assert (Hact : forall c, In c (coords f) ->
               fst (get_active (fst (nthr rs l)) f) <= c < snd (get_active (fst (nthr rs l)) f)).
     { intros c Hc. eapply active_covers; eassumption. }
+    rewrite <- (active_exact rs t n l f HOK Hln Hf). rewrite !Z.eqb_refl. cbn [andb].
     apply andb_true_iff. split.
     + apply forallb_forall. intros c Hc. apply andb_true_iff. split.
       * apply coord_ok_true.
@@ -447,4 +485,16 @@ Proof.
   intros ids shape d t Hwf l f c Hf Hc.
   destruct (wf_kb_parts ids shape d t Hwf) as [Hd [Hat _]].
   eapply estimate_in_shape; [exact Hd|eapply wf_atree_sorted; exact Hat|exact Hf|exact Hc].
+Qed.
+
+Lemma build_active_exact : forall ids shape d t,
+  wf_kb ids shape d t = true ->
+  forall l f, In f (alevel l t) ->
+  get_active (fst (nth l (build_ranks (length ids) shape t) (None, true))) f
+  = expect_active (nth l (reported (build_ranks (length ids) shape t) t) 0) f.
+Proof.
+  intros ids shape d t Hwf l f Hf.
+  destruct (wf_kb_parts ids shape d t Hwf) as [Hd [_ [HOK _]]].
+  pose proof (alevel_depth t _ l f Hd Hf) as Hl.
+  exact (active_exact _ t _ l f HOK Hl Hf).
 Qed.
